@@ -409,6 +409,35 @@ theorem valid_search_raw (cfg : Cfg) (pairs : List (String × String)) (s : Trac
   simpa [Parse.mkMsg, Parse.tsOf, Parse.hget, Parse.get?_write_source _ _ "_timestamp" (by decide),
     Parse.get?_write_source _ _ "cache-control" (by decide)] using this
 
+/-- **byebye_exact_raw** — end to end from the raw headers: a packet on the advertisement socket with `NTS: ssdp:byebye`
+    (not an M-SEARCH echo), whose USN names the device `u` and which has a non-empty NT, removes `u` and only `u` from
+    the map of any reachable state, touching nothing else (no purge, watermark unchanged). -/
+theorem byebye_exact_raw (cfg : Cfg) (ops : List Parse.RawOp) (pairs : List (String × String))
+    (hudn : (Parse.RawOp.pkt true pairs).decoded) (usn u ty : String)
+    (hman : Parse.hget (C16.SMap.writeAll Parse.lower [] pairs) "man" ≠ some Parse.ssdpDiscover)
+    (hnts : Parse.hget (C16.SMap.writeAll Parse.lower [] pairs) "nts" = some "ssdp:byebye")
+    (husn : Parse.truthy (get? (C16.SMap.writeAll Parse.lower [] pairs) "usn") = some usn)
+    (hu : Parse.udnFromUsn usn = some u)
+    (hnt : Parse.truthy (get? (C16.SMap.writeAll Parse.lower [] pairs) "nt") = some ty) :
+    let s := final Parse.ipVersion (Parse.skipHdr cfg) {} (ops.map (Parse.RawOp.ev cfg))
+    (step Parse.ipVersion (Parse.skipHdr cfg) s (Parse.parseEv cfg true pairs)).1 = ⟨erase s.devices u, s.next⟩ := by
+  intro s
+  have hw := Parse.parseEv_wf cfg true pairs hudn
+  have he : Parse.parseEv cfg true pairs =
+      .msg (Parse.mkMsg cfg .byebye (C16.SMap.write Parse.lower (C16.SMap.writeAll Parse.lower [] pairs) "_source" "advertisement")) := by
+    unfold Parse.parseEv
+    have : (Parse.hget (C16.SMap.writeAll Parse.lower [] pairs) "man" == some Parse.ssdpDiscover) = false := by
+      rw [beq_eq_false_iff_ne]; exact hman
+    have h1 : ("ssdp:byebye" == "ssdp:alive") = false := by decide
+    simp [this, hnts, h1]
+  rw [he] at hw ⊢
+  simp only [Ev.wf] at hw
+  have hb : (Parse.mkMsg cfg .byebye (C16.SMap.write Parse.lower (C16.SMap.writeAll Parse.lower [] pairs) "_source" "advertisement")).byebye?
+      = some u := by
+    simp [Msg.byebye?, Parse.mkMsg, Parse.get?_write_source _ _ "usn" (by decide),
+      Parse.get?_write_source _ _ "nt" (by decide), husn, hu, hnt]
+  exact (byebye_exact Parse.ipVersion (Parse.skipHdr cfg) (ops.map (Parse.RawOp.ev cfg)) _ hw u hb).1
+
 /-- non-vacuity of `valid_search_raw` / `invalid_inert_raw`: a concrete decoded search response satisfies every
     hypothesis (device `uuid:a`, max-age 5 s), and the same packet with a loopback location satisfies `hbad` -/
 example :
